@@ -85,6 +85,10 @@ def stat_cases(draw):
         "order": draw(st.sampled_from(["dfs", "surface_order", "len", "table"])),
         "table": draw(st.lists(st.integers(0, 3), min_size=1, max_size=5)),
         "compress_late": draw(st.booleans()),
+        # the same figures are asked for again after the tree was reconfigured
+        # (in place, or as a non-inplace copy)
+        "again_after": draw(st.sampled_from([None, None, "reconf", "reconf_copy", "anneal"])),
+        "seed": draw(st.integers(0, 99)),
     }
 
 
@@ -192,8 +196,34 @@ def run_stats(spec):
                 f"chi={chi}: (max_size, peak, write) ({ms_c}, {pk_c}, {w_c}) exceeds the uncapped ({ms}, {pk}, {w})"
             )
             break
+    aa = spec.get("again_after")
+    if aa and not viol and n >= 3 and not dangling_labels(net):
+        sd_ = spec.get("seed", 0)
+        if aa == "reconf":
+            ok, t2 = guarded(tree.subtree_reconfigure_, subtree_size=3, maxiter=1, select="random", seed=sd_)
+        elif aa == "reconf_copy":
+            ok, t2 = guarded(tree.subtree_reconfigure, subtree_size=3, maxiter=1, select="random", seed=sd_)
+        else:
+            ok, t2 = guarded(tree.simulated_anneal_, tsteps=1, numiter=2, tstart=5.0, seed=sd_)
+        if not ok:
+            viol.append(f"{aa} raised {t2}")
+        else:
+            steps2 = [(p, l, r) for p, l, r in t2.traverse(order)]
+            st2 = cr.stats(steps2)
+            ok, tr = guarded(t2.compressed_contract_stats, chi=HUGE, order=order, compress_late=late)
+            if not ok:
+                viol.append(f"compressed_contract_stats after {aa} raised {tr}")
+            else:
+                want2 = max(in_sizes + [s_ for _, _, s_ in st2["per"]])
+                if (tr.flops, tr.max_size, tr.write) != (st2["flops"], want2, st2["write"] + sum(in_sizes)):
+                    viol.append(
+                        f"after {aa}: uncapped compressed (flops, max_size, write) {(tr.flops, tr.max_size, tr.write)} != "
+                        f"exact figures of the tree as it is now {(st2['flops'], want2, st2['write'] + sum(in_sizes))}"
+                    )
     cls = sorted(gen.net_classes(net) & {"hyper", "disconnected", "batch_output", "scalar"})
     cls += ["kind=stats", f"order={spec['order']}", f"late={late}"]
+    if aa:
+        cls.append(f"again_after={aa}")
     if dangling_labels(net):
         cls.append("dangling_label")
     maxbond = max(sizes.values(), default=1)
@@ -257,6 +287,29 @@ def run_finder(spec):
                 ok, s = guarded(lambda: (tree.max_size(), tree.peak_size(), tree.total_flops()))
                 if not ok:
                     viol.append(f"{what}: compressed stats raised {s}")
+                else:
+                    # the estimates under their other accessor names, uncapped:
+                    # they are the exact figures of this tree (default order)
+                    cr = ref.CostRef(inputs, output, sizes)
+                    ok, st_ = guarded(lambda: cr.stats([(p_, l_, r_) for p_, l_, r_ in tree.traverse(tree.get_default_order())]))
+                    ok2, acc = guarded(
+                        lambda: (
+                            tree.total_flops(HUGE), tree.contraction_cost(HUGE), tree.max_size(HUGE),
+                            tree.contraction_width(HUGE), tree.total_write(HUGE),
+                        )
+                    )
+                    if ok and not ok2:
+                        viol.append(f"{what}: uncapped accessors raised {acc}")
+                    elif ok and ok2:
+                        in_sizes = [math.prod(sizes[ix] for ix in t) for t in inputs]
+                        want_ms = max(in_sizes + [s_ for _, _, s_ in st_["per"]])
+                        tf, cc, ms, cw, tw = acc
+                        if tf != st_["flops"] or cc != st_["flops"]:
+                            viol.append(f"{what}: total_flops(huge)={tf}, contraction_cost(huge)={cc}, exact flops of the tree {st_['flops']}")
+                        elif ms != want_ms or abs(2.0 ** cw - want_ms) > 1e-6 * want_ms:
+                            viol.append(f"{what}: max_size(huge)={ms}, 2**contraction_width(huge)={2.0 ** cw}, largest tensor {want_ms}")
+                        elif tw != st_["write"] + sum(in_sizes):
+                            viol.append(f"{what}: total_write(huge)={tw}, exact write + inputs {st_['write'] + sum(in_sizes)}")
     return Outcome(viol, n >= 3, ["kind=finder", f"method={m}"])
 
 
